@@ -259,10 +259,39 @@ def cases(tier):
                 for op in ("+", "-", "*"):
                     for ctx in ("converter", "stock_direct"):
                         out.append(["pair", "g", c1, c2, op, ctx, st, dt, n])
+    # two stocks in a chain, every pair of constructs on the two stock-dependent flows
+    for (st, dt, n) in ([(0, 0.5, 5), (1, 0.1, 6)] if tier == "quick" else [(0, 1, 5), (0, 0.5, 5), (1, 0.1, 6), (0.5, 0.25, 8), (2, 0.2, 6)]):
+        for c_tr in TWO_CONS:
+            for c_out in TWO_CONS:
+                for fk in ("flow", "biflow"):
+                    out.append(["two", c_tr, c_out, fk, st, dt, n])
     return out
 
 
+TWO_CONS = ["ref", "mul_k", "div_k", "num_mul", "if", "lookup_list", "delay1", "delay2_init", "smooth", "min", "max", "round"]
+
+
+def two_stock_spec(c_tr, c_out, flowkind, st, dt, n):
+    """two stocks in a chain: source -> S1 -(tr)-> S2 -(out)-> ; tr is a construct over S1, out a construct over S2"""
+    s, d = Fraction(str(st)), Fraction(str(dt))
+    stop = F(s + n * d)
+    tr = constructs("S1", st, dt)[c_tr]
+    out = constructs("S2", st, dt)[c_out]
+    els = {
+        "k": {"kind": "constant", "eq": ["num", 2.0]},
+        "g": {"kind": "converter", "eq": ["lookup", ["time"], PTS_G]},
+        "src": {"kind": "flow", "eq": ["bin", "*", ["ref", "g"], ["num", 0.5]]},
+        "tr": {"kind": flowkind, "eq": ["bin", "*", tr, ["num", 0.25]]},
+        "out": {"kind": flowkind, "eq": ["bin", "*", out, ["num", 0.125]]},
+        "S1": {"kind": "stock", "init": ["num", 12.0], "eq": ["bin", "-", ["ref", "src"], ["ref", "tr"]]},
+        "S2": {"kind": "stock", "init": ["num", 3.0], "eq": ["bin", "-", ["ref", "tr"], ["ref", "out"]]},
+    }
+    return {"name": "m", "start": st, "stop": stop, "dt": dt, "elements": els, "points": {"lk": PTS_L}}
+
+
 def spec_of(case):
+    if case[0] == "two":
+        return two_stock_spec(*case[1:])
     if case[0] == "single":
         _, base, cname, ctx, st, dt, n = case
         return make_spec(base, cname, ctx, st, dt, n)
@@ -271,6 +300,8 @@ def spec_of(case):
 
 
 def sig_of(case, clause):
+    if case[0] == "two":
+        return "C01/%s/two-stocks/tr=%s,out=%s,%s" % (clause, case[1], case[2], case[3])
     if case[0] == "single":
         return "C01/%s/%s@%s/base=%s" % (clause, case[2], case[3], case[1])
     return "C01/%s/%s%s%s@%s" % (clause, case[2], case[4], case[3], case[5])
@@ -312,7 +343,7 @@ def run(ctx):
         "evaluations": len(cs), "distinct_nontrivial": nontrivial,
         "value_comparisons": ncmp_total, "reference_undefined": n_undefined,
         "rule": "construct x context x base signal x (start, dt, steps) lattice, plus pairs of constructs "
-                "joined by + - * in converter and stock context; one generated model per case; "
+                "joined by + - * in converter and stock context, plus two-stock chains with every pair of 12 constructs on the stock-dependent flows; one generated model per case; "
                 "non-trivial = model accepted and at least one (element, time) compared with the Euler reference",
         "contexts": CONTEXTS, "channels": ["Element.__call__", "Element.plot(return_df=True)", "bptk.run_scenarios(df)"],
         "samples": samples,
